@@ -307,6 +307,7 @@ E4_FAMILIES = [
     ("callret", "argument and return-value traffic across a call: every (before, after) pair in the caller x every 2-instruction callee body over 7 instructions (1470; thorough: 3-instruction callee bodies, 10290)"),
     ("handler", "interrupt handlers (registered through utvec): every 3-instruction body over 11 spill/reload/CSR instructions between the two uscratch swaps (1247; thorough: 4 instructions)"),
     ("cfg", "control-flow shapes: three slots between three labels, each a branch / jump / call / exit or print ecall / plain instruction, 12^3 (1728)"),
+    ("br0", "every branch mnemonic and pseudo-branch x every operand coincidence (two registers, x0 on either side, same register, x0 twice), forwards and backwards (116)"),
     ("mix", "every (stack, arithmetic, stack) instruction triple from the two alphabets (2744)"),
     ("fp", "a function keeping a frame pointer, with every pair of instructions from the stack alphabet plus sp moves in between (324)"),
     ("func", "every function body of 1-3 instructions over a 10-instruction save/restore alphabet, between the frame push and pop (1110; thorough: 1-4, 11110)"),
